@@ -180,7 +180,7 @@ type ssBigList struct {
 func Harness_C17_q_large_list_elements() {
 	v := ssBigList{Head: verif.U8("head")}
 	nl := 1 + verif.Choice("list-len", 2)
-	lens := []int{10, 254, 300}
+	lens := []int{10, 250, 254, 300, 505} // 250 and 505: element payloads of exactly 255 and 510 bytes
 	for i := 0; i < nl; i++ {
 		id := string(rune('0' + i))
 		v.L = append(v.L, ssBig{Blob: verif.Bytes("blob"+id, lens[verif.Choice("bloblen"+id, len(lens))]), N: verif.U8("n" + id)})
@@ -210,6 +210,45 @@ func Harness_C17_q_large_list_elements() {
 		for i := range v.L {
 			verif.Assert(verif.Eq(back.L[i].Blob, v.L[i].Blob) && back.L[i].N == v.L[i].N, "large-elements-roundtrip")
 		}
+	}
+	verif.Reach("end")
+}
+
+type ssBlobElem struct {
+	Data []byte `tlv8:"1"`
+}
+
+type ssBlobInline struct {
+	L []ssBlobElem `tlv8:"-"`
+}
+
+// Inline list whose elements are byte strings at the fragment boundaries (254, 255, 256,
+// 510 bytes: an element that ends in a full 255-byte fragment is followed by the separator
+// and the next element).
+func Harness_C17_q_inline_list_fragment_boundaries() {
+	lens := []int{1, 254, 255, 256, 510}
+	var v ssBlobInline
+	for i := 0; i < 2; i++ {
+		id := string(rune('0' + i))
+		v.L = append(v.L, ssBlobElem{Data: verif.Bytes("d"+id, lens[verif.Choice("len"+id, len(lens))])})
+	}
+	enc, err := Marshal(v)
+	verif.Assert(err == nil, "marshal-ok")
+	ref := kkRef(1, v.L[0].Data)
+	ref = append(ref, 0, 0)
+	ref = append(ref, kkRef(1, v.L[1].Data)...)
+	if !kkWire(enc, ref, "inline-list-equals-reference-encoding") {
+		return
+	}
+	var back ssBlobInline
+	p := verif.Panics(func() { err = Unmarshal(enc, &back) })
+	verif.Assert(!p && err == nil, "unmarshal-ok")
+	if p || err != nil {
+		return
+	}
+	verif.Assert(len(back.L) == 2, "inline-list-roundtrip-shape")
+	if len(back.L) == 2 {
+		verif.Assert(verif.Eq(back.L[0].Data, v.L[0].Data) && verif.Eq(back.L[1].Data, v.L[1].Data), "inline-list-roundtrip-elements")
 	}
 	verif.Reach("end")
 }
